@@ -4,8 +4,10 @@ mod afio;
 mod obs;
 mod dynamic;
 mod enc;
+mod equiv;
 mod ext;
 mod io;
+mod meta;
 mod sat;
 mod stat;
 mod store;
@@ -26,6 +28,8 @@ fn main() {
         "sat" => sat::cmd_sat(&a),
         "io" => io::cmd_io(&a),
         "enc" => enc::cmd_enc(&a),
+        "meta" => meta::cmd_meta(&a),
+        "equiv" => equiv::cmd_equiv(&a),
         "ext" => ext::cmd_ext(&a),
         "extone" => ext::cmd_extone(&a),
         c => {
